@@ -84,7 +84,9 @@ func runC14(c0 *h.Ctx) {
 }
 
 func runC14Part(c *h.Ctx, part int) {
+	c14Field(c, part)
 	L := ref.EdL()
+	c14PatternedReductions(c, part, L)
 	B := ref.EdBase()
 	nSeeds := 6
 	if c.Thorough() {
